@@ -433,6 +433,77 @@ theorem finishPending_inv {B off : Nat} {st : Inner} (h : CInv B st) (hb : B ≤
     · exact h'.originsInv
     · exact h'.module
 
+theorem classify_file_lt (input : List Byte) (idx : Nat) (h : classify input = .file idx) : idx < pow32 := by
+  unfold classify at h
+  split at h
+  · rename_i hf; cases h; exact indexedLine_lt _ _ _ _ hf
+  · split at h
+    · cases h
+    · split at h
+      · cases h
+      · split at h
+        · cases h
+        · split at h
+          · cases h
+          · split at h <;> cases h
+
+theorem classify_origin_lt (input : List Byte) (idx : Nat) (h : classify input = .origin idx) :
+    idx < pow32 := by
+  unfold classify at h
+  split at h
+  · cases h
+  · split at h
+    · rename_i hf; cases h; exact indexedLine_lt _ _ _ _ hf
+    · split at h
+      · cases h
+      · split at h
+        · cases h
+        · split at h
+          · cases h
+          · split at h <;> cases h
+
+theorem classify_pub_lt (input : List Byte) (a : Nat) (h : classify input = .pub a) : a < pow32 := by
+  unfold classify at h
+  split at h
+  · cases h
+  · split at h
+    · cases h
+    · split at h
+      · rename_i hf; cases h; exact publicLine_lt _ _ _ hf
+      · split at h
+        · cases h
+        · split at h
+          · cases h
+          · split at h <;> cases h
+
+theorem classify_func_lt (input : List Byte) (a : Nat) (h : classify input = .func a) : a < pow32 := by
+  unfold classify at h
+  split at h
+  · cases h
+  · split at h
+    · cases h
+    · split at h
+      · cases h
+      · split at h
+        · rename_i hf; cases h; exact (funcLine_lt _ _ _ _ hf).1
+        · split at h
+          · cases h
+          · split at h <;> cases h
+
+theorem classify_info (input : List Byte) (h : classify input = .info) : (tag tINFO_ input).isSome = true := by
+  unfold classify at h
+  split at h
+  · cases h
+  · split at h
+    · cases h
+    · split at h
+      · cases h
+      · split at h
+        · cases h
+        · split at h
+          · assumption
+          · split at h <;> cases h
+
 theorem processLine_inv {B off : Nat} {st : Inner} {line : List Byte} (h : CInv B st) (hb : B ≤ off)
     (hl : (10 : Byte) ∉ line) : ∃ st', processLine st off line = some st' ∧ CInv off st' := by
   have h' := h.mono hb
@@ -442,11 +513,11 @@ theorem processLine_inv {B off : Nat} {st : Inner} {line : List Byte} (h : CInv 
   by_cases hm : st.hasModule = true
   · simp only [hm, Bool.not_true, Bool.false_eq_true, if_false]
     have hlen : (stripCR line).length % pow32 < pow32 := Nat.mod_lt _ (by decide)
-    cases hf : fileLine (stripCR line) with
-    | some p =>
-      obtain ⟨idx, nm⟩ := p
+    obtain ⟨st1, hfp, hc1, hp1, hmi1, hhm1⟩ := finishPending_inv h hb
+    cases hcl : classify (stripCR line) with
+    | file idx =>
       refine ⟨_, rfl, ?_⟩
-      have hidx := indexedLine_lt _ _ _ _ hf
+      have hidx := classify_file_lt _ _ hcl
       constructor
       · exact h'.pending
       · exact h'.symbols
@@ -458,13 +529,9 @@ theorem processLine_inv {B off : Nat} {st : Inner} {line : List Byte} (h : CInv 
       · exact SVB.push_inv _ _ h'.filesInv
       · exact h'.originsInv
       · exact fun _ => h'.module hm
-    | none =>
-    simp only
-    cases ho : inlineOriginLine (stripCR line) with
-    | some p =>
-      obtain ⟨idx, nm⟩ := p
+    | origin idx =>
       refine ⟨_, rfl, ?_⟩
-      have hidx := indexedLine_lt _ _ _ _ ho
+      have hidx := classify_origin_lt _ _ hcl
       constructor
       · exact h'.pending
       · exact h'.symbols
@@ -476,15 +543,10 @@ theorem processLine_inv {B off : Nat} {st : Inner} {line : List Byte} (h : CInv 
       · exact h'.filesInv
       · exact SVB.push_inv _ _ h'.originsInv
       · exact fun _ => h'.module hm
-    | none =>
-    simp only
-    obtain ⟨st1, hfp, hc1, hp1, hmi1, hhm1⟩ := finishPending_inv h hb
-    cases hpub : publicLine (stripCR line) with
-    | some p =>
-      obtain ⟨addr, nm⟩ := p
+    | pub addr =>
       simp only [hfp, Option.map_some]
       refine ⟨_, rfl, ?_⟩
-      have ha := publicLine_lt _ _ _ hpub
+      have ha := classify_pub_lt _ _ hcl
       constructor
       · exact hc1.pending
       · intro s hs
@@ -497,29 +559,24 @@ theorem processLine_inv {B off : Nat} {st : Inner} {line : List Byte} (h : CInv 
       · exact hc1.filesInv
       · exact hc1.originsInv
       · exact hc1.module
-    | none =>
-    simp only
-    cases hfu : funcLine (stripCR line) with
-    | some p =>
-      obtain ⟨addr, sz, nm⟩ := p
+    | func addr =>
       simp only [hfp, Option.map_some]
       refine ⟨_, rfl, ?_⟩
-      have ha := funcLine_lt _ _ _ _ hfu
+      have ha := classify_func_lt _ _ hcl
       constructor
       · intro a fo hc
         simp only [Option.some.injEq, Prod.mk.injEq] at hc
         obtain ⟨rfl, rfl⟩ := hc
-        exact ⟨Nat.le_refl _, ha.1⟩
+        exact ⟨Nat.le_refl _, ha⟩
       · exact hc1.symbols
       · exact hc1.files
       · exact hc1.origins
       · exact hc1.filesInv
       · exact hc1.originsInv
       · exact hc1.module
-    | none =>
-    simp only
-    by_cases hinfo : (tag tINFO_ (stripCR line)).isSome = true
-    · simp only [hinfo, if_true, hfp, Option.map_some]
+    | info =>
+      have hinfo := classify_info _ hcl
+      simp only [hfp, Option.map_some]
       refine ⟨_, rfl, ?_⟩
       constructor
       · exact hc1.pending
@@ -538,12 +595,8 @@ theorem processLine_inv {B off : Nat} {st : Inner} {line : List Byte} (h : CInv 
           rcases hl' with hl' | hl'
           · exact hi1 l hl'
           · subst hl'; exact ⟨hin, hinfo⟩
-    · simp only [hinfo, Bool.false_eq_true, if_false]
-      by_cases hst : (tag tSTACK_ (stripCR line)).isSome = true
-      · simp only [hst, if_true]
-        exact ⟨st1, hfp, hc1⟩
-      · simp only [hst, Bool.false_eq_true, if_false]
-        exact ⟨st, rfl, h'⟩
+    | stack => exact ⟨st1, hfp, hc1⟩
+    | other => exact ⟨st, rfl, h'⟩
   · have hm' : st.hasModule = false := by simpa using hm
     simp only [hm', Bool.not_false, if_true]
     refine ⟨_, rfl, ?_⟩
